@@ -559,14 +559,26 @@ def r_sort_gate(ctx, repo):
     else:
         loop = item_loops[0]
         items = loop.ast.id
+        # names that are plain copies of one another (`mapping = items`) denote the same item list
+        alias = {items}
+        grew = True
+        while grew:
+            grew = False
+            for st in walk_function(f.node):
+                if isinstance(st, ast.Assign) and len(st.targets) == 1 and isinstance(st.targets[0], ast.Name) \
+                        and isinstance(st.value, ast.Name):
+                    a, b = st.targets[0].id, st.value.id
+                    if a in alias and b not in alias and b != m:
+                        alias.add(b)
+                        grew = True
 
         def from_mapping(e):
             """the expression is (a copy of) the mapping / its item list"""
             names = {x.id for x in ast.walk(e) if isinstance(x, ast.Name) and isinstance(x.ctx, ast.Load)}
-            return bool(names & {m, items}) and names <= {m, items, 'list', 'sorted'}
+            return bool(names & ({m} | alias)) and names <= ({m, 'list', 'sorted'} | alias)
         sorted_calls = [c for c in A.func_calls(f.node) if isinstance(c.func, ast.Name) and c.func.id == 'sorted']
         sorts = [n for n in cfg.nodes if n.kind == 'stmt' and isinstance(n.ast, ast.Assign) and len(n.ast.targets) == 1
-                 and isinstance(n.ast.targets[0], ast.Name) and n.ast.targets[0].id == items
+                 and isinstance(n.ast.targets[0], ast.Name) and n.ast.targets[0].id in alias
                  and isinstance(n.ast.value, ast.Call) and n.ast.value in sorted_calls and len(n.ast.value.args) == 1
                  and not n.ast.value.keywords and from_mapping(n.ast.value.args[0])]
         if not sorted_calls:
@@ -596,7 +608,9 @@ def r_sort_gate(ctx, repo):
                         continue
                     r = cfg.reach([h], blocked=[loop], follow_exc=False)
                     touched = [x for x in r if x is not h and (x.kind == 'raise' or (x.ast is not None and any(
-                        isinstance(y, ast.Name) and y.id == items and isinstance(y.ctx, ast.Store) for y in own_exprs(x))) or any(
+                        isinstance(y, ast.Name) and y.id in alias and isinstance(y.ctx, ast.Store)
+                        and not (isinstance(x.ast, ast.Assign) and isinstance(x.ast.value, ast.Name) and x.ast.value.id in alias)
+                        for y in own_exprs(x))) or any(
                         isinstance(mu.root, ast.Name) and mu.root.id == items for mu in A.find_mutations(
                             [y for y in own_exprs(x)] if x.ast is not None else [])))]
                     if h.ast.type is None or norm(h.ast.type) != 'TypeError' or touched or loop not in cfg.reach([h], follow_exc=False):
